@@ -157,6 +157,9 @@ type Bomb struct {
 	Helper     space.BombSignalHelper
 	Terminated int32
 	mu         sync.Mutex
+	// ValidatorDelay: how long the validator takes (a validator which looks
+	// something up is not instantaneous)
+	ValidatorDelay time.Duration
 }
 
 // Activate initialises the property.
@@ -170,8 +173,18 @@ func (b *Bomb) Activate(activation bus.Activation, helper space.BombSignalHelper
 // OnTerminate counts terminations.
 func (b *Bomb) OnTerminate() { atomic.AddInt32(&b.Terminated, 1) }
 
+// GetHelper returns the signal helper handed over at activation.
+func (b *Bomb) GetHelper() space.BombSignalHelper {
+	b.mu.Lock()
+	defer b.mu.Unlock()
+	return b.Helper
+}
+
 // OnDelayChange is the validator: negatives are rejected.
 func (b *Bomb) OnDelayChange(duration int32) error {
+	if b.ValidatorDelay > 0 {
+		time.Sleep(b.ValidatorDelay)
+	}
 	b.J.Add(b.Name, "onDelayChange", fmt.Sprint(duration))
 	if duration < 0 {
 		return fmt.Errorf("duration cannot be negative (%d)", duration)
